@@ -268,6 +268,10 @@ func runC04(c *eng.Ctx) {
 	c.Rule("R04.5", "K3")
 	ruleNewPartitionKnowsOnlyItsOwnProgress(c)
 	ruleProgressIsWithinTheLeadersLog(c)
+	// (shared with C02) the loops of a term of leadership are joined before the hand-over: a replicator of the old term
+	// must not write progress into the next term's bookkeeping
+	c.Rule("R02.1", "K3")
+	ruleJoinBeforeHandover(c)
 	ruleReplicaProgressSources(c)
 	if fn := c.Fn("server.(*replica).updateLatestOffset"); fn != nil {
 		off := p.Field("server", "replica", "offset")
